@@ -24,6 +24,18 @@ def q(a, b):
     return lambda tier: b if tier == "thorough" else a
 
 
+def grammar_cfg(shift="mul", poe="clear", pw=64, emit="FALSE", mall="FALSE", invs=("RoundTrip", "Agrees", "Terminates", "Total", "NoCountdownOverflow")):
+    t = ["SPECIFICATION Spec", "CONSTANTS", '  ShiftCheck = "%s"' % shift, '  PendingOnError = "%s"' % poe, "  PendingWidth = %d" % pw,
+         "  EmitJson = %s" % emit, "  MutateAll = %s" % mall]
+    t += ["INVARIANT %s" % i for i in invs] + ["CHECK_DEADLOCK FALSE"]
+    return "\n".join(t) + "\n"
+
+
+def tlf_cfg(shift, first, nxt, maxlen):
+    return "\n".join(["SPECIFICATION Spec", "CONSTANTS", '  ShiftCheck = "%s"' % shift, "  FirstBytes <- %s" % first, "  NextBytes <- %s" % nxt,
+                      "  MaxLen = %d" % maxlen, "INVARIANT Exact", "CHECK_DEADLOCK FALSE"]) + "\n"
+
+
 MC = {
     "crc_table": {"module": "MC_Crc16", "workers": 1, "cfg": "INIT Init\nNEXT Next\nINVARIANT TableOK\nCHECK_DEADLOCK FALSE\n"},
     # ---- decoder (MC_Decoder.tla over DecoderSM / Decoder) ----
@@ -57,6 +69,14 @@ MC = {
     "reader_faults_3": {"module": "MC_Reader", "workers": 2,
                         "cfg": lambda tier: "SPECIFICATION Spec\nCONSTANTS\n  MatcherFallback = \"kmp\"\n  DiscWidth = 0\n  BaseId = 3\n  MaxFaults = %d\n  Cap = 1073741824\n"
                                             "INVARIANT FaultsOK\nINVARIANT LoopsAgree\nCHECK_DEADLOCK FALSE\n" % (2 if tier == "thorough" else 1)},
+    "grammar": {"module": "MC_Grammar", "workers": 8,
+                "cfg": lambda tier: grammar_cfg(mall="TRUE" if tier == "thorough" else "FALSE")},
+    "neg_pending_keep": {"module": "MC_Grammar", "workers": 8, "expect": "Terminates", "cfg": grammar_cfg(poe="keep", invs=("Terminates",))},
+    "neg_pending_32": {"module": "MC_Grammar", "workers": 8, "expect": "NoCountdownOverflow", "cfg": grammar_cfg(pw=32, invs=("NoCountdownOverflow",))},
+    "tlf_exact": {"module": "MC_Tlf", "workers": 8,
+                  "cfg": lambda tier: tlf_cfg("mul", "AllBytes", "AllBytes", 3) if tier == "thorough" else tlf_cfg("mul", "AllBytes", "SomeNext", 4)},
+    "tlf_long": {"module": "MC_Tlf", "workers": 8, "cfg": tlf_cfg("mul", "SomeFirst", "FewNext", 12)},
+    "neg_tlf_shl": {"module": "MC_Tlf", "workers": 8, "expect": "Exact", "cfg": tlf_cfg("shl", "SomeFirst", "FewNext", 12)},
     "encoders": {"module": "MC_Encoder",
                  "cfg": lambda tier: "SPECIFICATION Spec\nCONSTANTS\n  PayBytes = {27, 0, 85}\n  PayLen = %d\n  ExtraCalls = 3\n"
                                      "INVARIANT NoPanicArm\nINVARIANT IterPrefix\nINVARIANT IterComplete\nINVARIANT Fused\nINVARIANT PadCounter\n"
@@ -71,6 +91,8 @@ MC = {
 }
 
 GEN = {
+    # TLC prints Encode(F, c) for every abstract file and every combination of encoding choices (binding B for C03)
+    "grammar_files": {"module": "MC_Grammar", "workers": 4, "cfg": lambda tier: grammar_cfg(emit="TRUE", invs=("Emit",))},
     # TLC prints every maximal behaviour of MC_ArrayBuf as JSON (binding B for C18)
     "arraybuf_ops": {"module": "MC_ArrayBuf", "workers": 4,
                      "cfg": lambda tier: "SPECIFICATION Spec\nCONSTANTS\n  Caps = {0, 1, 2, 3}\n  ByteVals = {0, 1}\n  MaxOps = %d\n  MaxSlice = 2\n  EmitJson = TRUE\n"
@@ -132,19 +154,19 @@ PROPS = {
                 steps=[{"cmd": "c16", "judge": "J_C16"}]),
     "C03": dict(P("valid files from the harness generator (all value types, integer widths 1-8, optional masks, multi-byte / non-minimal TLFs, list lengths across 15/16, both time encodings, "
                   "1-byte checksum fields) with the generator's intended content, plus the corpus payloads and their message-boundary truncations; judged against SmlGrammar.ParseFile"),
-                mc={"quick": [], "thorough": []},
-                steps=[{"cmd": "c03", "judge": "J_C03", "cfg": "JudgeP.cfg"}]),
+                mc={"quick": ["grammar"], "thorough": ["grammar"]},
+                steps=[{"cmd": "c03", "judge": "J_C03", "cfg": "JudgeP.cfg", "tlcgen": "grammar_files"}]),
     "C04": dict(P("218 corpus payloads + generated files x (all truncations, extensions, single-byte substitutions - exhaustive at TLF bytes and for the smallest files -, element deletion / duplication / "
                   "arity change / replacement, declared-length bombs, random multi-byte edits and splices), each with and without recomputed message checksums; every accepted input of the structural "
                   "classes and a hash sample of accepted data corruptions are judged against SmlGrammar.ParseFile"),
-                mc={"quick": [], "thorough": []},
+                mc={"quick": ["grammar"], "thorough": ["grammar", "tlf_exact"]},
                 steps=[{"cmd": "c04", "judge": "J_C04", "cfg": "JudgeP.cfg"}]),
     "C06": dict(P("declared-length bombs (2^k-1, 2^k for k in 4..32, and beyond 32 bits) at every TLF of every base file, structural edits and a sample of the other corruptions; each case run in a worker "
                   "process under a watchdog with a counting global allocator; record = (|x|, outcomes, allocation count / largest / total)"),
-                mc={"quick": [], "thorough": []},
+                mc={"quick": ["grammar"], "thorough": ["grammar", "tlf_long"]},
                 steps=[{"cmd": "c06", "judge": "J_C06", "cfg": "JudgeP.cfg"}]),
     "C09": dict(P("the same corruption families as C04; both real parsers on every input; records de-duplicated by (allocating result, event list)"),
-                mc={"quick": [], "thorough": []},
+                mc={"quick": ["grammar"], "thorough": ["grammar"]},
                 steps=[{"cmd": "c09", "judge": "J_C09", "cfg": "JudgeP.cfg"}]),
     "C10": dict({"rule": "0-3 SML files (generated with every encoding choice, or real meter payloads) framed by the harness and separated by random noise (incl. noise ending in 0x1b runs or a partial start "
                          "sequence), read through SmlReader over slice / iterator / io::Read with the default 8 KiB, ArrayBuf<N> and Vec buffers, with per-call choices of read vs next and of "
@@ -159,10 +181,10 @@ PROPS = {
                 steps=[{"cmd": "c11", "judge": "J_C11"}]),
     "C12": dict(P("every 1- and 2-byte TLF, a strided (quick) / exhaustive (thorough) set of 3-byte TLFs, crafted 4-12 byte TLFs around 2^32 and the own-size subtraction, integers of width 0-9 with "
                   "boundary leading bytes, all boolean bytes - each at 8 field positions of a message template, observed through the streaming parser's events"),
-                mc={"quick": [], "thorough": []},
+                mc={"quick": ["tlf_exact", "tlf_long"], "thorough": ["tlf_exact", "tlf_long", "grammar"]},
                 steps=[{"cmd": "c12", "judge": "J_C12", "cfg": "JudgeP.cfg"}]),
     "C13": dict(P("the same corruption families as C04; next() is called until None (at most |x|+8 items) and 5 more times; record = (|x|, items, items after the end, error positions)"),
-                mc={"quick": [], "thorough": []},
+                mc={"quick": ["grammar"], "thorough": ["grammar"]},
                 steps=[{"cmd": "c13", "judge": "J_C13", "cfg": "JudgeP.cfg"}]),
     "C18": dict({"rule": "operation sequences over push / extend_from_slice / truncate / clear / from_iter: every maximal behaviour TLC generates from MC_ArrayBuf (replayed into the real type), the harness' own "
                          "exhaustive enumeration of depth 3 (4 in thorough) for N in 0..3 (and 4, Vec in thorough), random histories of up to 24 operations on N in {5,8,16,31,48,255,256} and Vec",
